@@ -307,7 +307,7 @@ class BitLengthSet:
         """
         try:
             other = BitLengthSet(other)
-        except TypeError:
+        except (TypeError, ValueError, LookupError):  # Not something a bit length set can be constructed from.
             return NotImplemented
         divisor = 32
         return self.min == other.min and self.max == other.max and set(self % divisor) == set(other % divisor)
